@@ -134,13 +134,20 @@ def check_sel(prog: Program, res: Result) -> None:
     dec = prog.cls("sleap_nn.architectures.encoder_decoder:Decoder").methods.get("forward")
     res.touch(dec)
     loops = [n for n in walk_function(dec.node) if isinstance(n, ast.For)]
-    ok = len(loops) == 1 and norm(loops[0].iter) == "range(len(self.decoder_stack))"
+    le = astq.loop_elems(loops[0], dec.node) if len(loops) == 1 else None
+    ok = le is not None and norm(le.seq) == "self.decoder_stack"
     res.ob(R, ok, dec.qualname, "one pass over decoder_stack in order", "Decoder.forward does not run the blocks once in stack order", dec.where)
     if ok:
         lp = loops[0]
         apps = [c for s in lp.body for c in ast.walk(s) if isinstance(c, ast.Call) and isinstance(c.func, ast.Attribute) and c.func.attr == "append"]
-        ok = len(apps) == 1 and astq_stmt(apps[0]) in lp.body and norm(apps[0].func.value) == "outputs['outputs']" and norm(apps[0].args[0]) == "x"
+        ok = len(apps) == 1 and astq_stmt(apps[0]) in lp.body and norm(apps[0].func.value) == "outputs['outputs']" and isinstance(apps[0].args[0], ast.Name)
         res.ob(R, ok, dec.qualname, "one output recorded per block", "Decoder.forward does not record exactly one output per block", dec.where)
+        if ok:
+            xn = apps[0].args[0].id
+            # every binding of the running tensor inside the loop is block_i(x, ...) for the current block
+            binds = [s_ for s_ in ast.walk(lp) if isinstance(s_, ast.Assign) and norm(s_.targets[0]) == xn]
+            okb = bool(binds) and all(isinstance(b.value, ast.Call) and le.is_elem(b.value.func) and b.value.args and norm(b.value.args[0]) == xn for b in binds)
+            res.ob(R, okb, dec.qualname, "block i is applied to the running tensor", "the running tensor is not updated by the current block of the stack", dec.where)
     st = [s for s in walk_function(dec.node) if isinstance(s, ast.Assign) and norm(s.targets[0]) == "outputs['strides']"]
     res.ob(R, len(st) == 1 and norm(st[0].value) == "self.current_strides", dec.qualname, "strides returned are current_strides",
            "Decoder.forward does not return self.current_strides alongside the outputs", dec.where)
@@ -171,18 +178,22 @@ def check_sel(prog: Program, res: Result) -> None:
     if ok:
         h, hl = [norm(e) for e in loops[0].target.elts]
         body = loops[0].body
-        idx = [s for s in body if isinstance(s, ast.Assign) and isinstance(s.value, ast.Call) and norm(s.value.func).endswith("['strides'].index")]
-        ok = len(idx) == 1 and norm(idx[0].value.args[0]) == f"{h}.output_stride"
+        outs = [s_ for s_ in body if isinstance(s_, ast.Assign) and isinstance(s_.targets[0], ast.Subscript) and norm(s_.targets[0].value) == "outputs"]
+        ok = len(outs) == 1 and norm(outs[0].targets[0].slice) == f"{h}.name"
+        val = astq.expand_at(fwd.node, outs[0].value, outs[0]) if ok else None
+        # head_layer(B['outputs'][B['strides'].index(head.output_stride)]) for the backbone result B
+        txt = norm(val).replace('"', "'") if val is not None else ""
+        import re
+        mm = re.fullmatch(re.escape(hl) + r"\((.+?)\['outputs'\]\[(.+?)\['strides'\]\.index\(" + re.escape(h) + r"\.output_stride\)\]\)", txt)
+        ok = ok and mm is not None and mm.group(1) == mm.group(2)
         res.ob(R, ok, fwd.qualname, "index looked up by the head's own output stride",
-               f"the decoder output is not selected by strides.index({h}.output_stride)", fwd.where)
+               f"the decoder output is not selected by strides.index({h}.output_stride): `{txt[:90]}`", fwd.where)
+        res.ob(R, ok, fwd.qualname, f"outputs[{h}.name] = {hl}(backbone outputs[idx])",
+               f"the head output is computed as `{short(outs[0].value, 60) if outs else '?'}`", fwd.where,
+               sample={"apply": txt[:120]})
         if ok:
-            iname = norm(idx[0].targets[0])
-            src = norm(idx[0].value.func.value.value)
-            outs = [s for s in body if isinstance(s, ast.Assign) and isinstance(s.targets[0], ast.Subscript) and norm(s.targets[0].value) == "outputs"]
-            ok = len(outs) == 1 and norm(outs[0].targets[0].slice) == f"{h}.name" and norm(outs[0].value) == f"{hl}({src}['outputs'][{iname}])"
-            res.ob(R, ok, fwd.qualname, f"outputs[{h}.name] = {hl}(backbone outputs[idx])",
-                   f"the head output is computed as `{short(outs[0].value, 60) if outs else '?'}`", fwd.where,
-                   sample={"select": norm(idx[0]), "apply": norm(outs[0]) if outs else None})
+            bsrc = mm.group(1)
+            res.ob(R, bsrc.startswith("self.backbone("), fwd.qualname, "the dict comes from self.backbone(x)", f"`{bsrc}` is not the result of self.backbone(...)", fwd.where)
     init = m.methods.get("__init__")
     res.touch(init)
     hl_app = [c for c in astq.method_calls(init.node, "append") if norm(c.func.value) == "self.head_layers"]
